@@ -444,6 +444,7 @@ CaseResult run_seg(const RunCtx &ctx, TapeReader &t, unsigned size_hint) {
     o.xprocs = ctx.x("xprocs");
     o.smooth_curves = layer == 1;
     o.hull_stress = layer == 1;
+    o.hull_stress_often = ctx.mode == "mem"; // C17 runs few cases: the hull vectors must outgrow their initial room in some of them
     o.allow_giant = layer == 1 && sizeof(K) <= 4; // runs of millions of equal keys: two-point segments spanning up to 2^24 - 4096 ranks
     if (o.allow_giant) o.max_n = std::max<size_t>(o.max_n, size_t(1) << 25);
     std::vector<K> keys = gen_keys<K>(t, o, meta);
